@@ -57,6 +57,11 @@ RESP_LEN_LIB = {1: 3, 2: 4, 3: 16, 4: 5, 8: 4, 9: 1}
 MSG_TYPES = [0x00, 0x05, 0x06, 0x7E, 0x7F]
 
 
+def rflags(r):
+    """transport flags byte: mostly the single-packet value, otherwise any SOM/EOM/seq/TO/tag mix"""
+    return r.choice([0xC8, 0xC8, 0xC8, 0x88, 0x08, 0x48, 0x00, 0xFF, 0xC0, 0xCF, r.randrange(256)])
+
+
 class G:
     """accumulates op lines"""
 
@@ -328,22 +333,45 @@ def gen_decode_families(g, tier, verb="dec", ctxs=None, proc_buf=None):
     # header byte sweeps, PEC re-fixed and stale
     stride = 1 if tier == "thorough" else 5
     for p, lab in vp[::(1 if tier == "thorough" else 3)]:
-        for pos in (4, 8, 9, 10, 11):
+        for pos in (4, 8, 9, 10, 11, 7, 5, 6, 0, 1, 2, 3):
             if pos >= len(p) - 1:
                 continue
-            for v in range(0, 256, stride):
+            for v in range(0, 256, stride if pos in (4, 8, 9, 10, 11) else stride * 5 + 2):
                 q = list(p)
                 q[pos] = v
                 emit(refix(q), "sweep%d" % pos)
                 if v % (stride * 8) == 0:
                     emit(q, "sweep%d-stale" % pos)
+    # every value of the two header-validation bytes on minimal-length packets (10..15 bytes)
+    for n in range(0, 6):
+        base = forge(0x23, 0x34, 0x23, 0x34, 0x05, g.rbytes(n))
+        for pos in (4, 8):
+            for v in range(256):
+                q = list(base)
+                q[pos] = v
+                emit(refix(q), "minimal-sweep%d" % pos)
     # command x direction x completion code x data length
     cmds = range(256) if tier == "thorough" else list(range(0, 0x18)) + [0x40, 0x80, 0xFE, 0xFF]
     for cmd in cmds:
         for n in (range(0, 21) if tier == "thorough" else (0, 1, 2, 3, 4, 5, 16, 17)):
-            emit(forge(0x10, 0x20, 0x10, 0x20, 0, ctrl_req(cmd, g.rbytes(n), iid=r.randrange(32), d=r.randrange(2), rsvd=r.randrange(2))), "req-len")
+            emit(forge(0x10, 0x20, 0x10, 0x20, 0, ctrl_req(cmd, g.rbytes(n), iid=r.randrange(32), d=r.randrange(2), rsvd=r.randrange(2)), flags=rflags(r)), "req-len")
             for cc in (0, r.choice([1, 2, 3, 4, 5])):
-                emit(forge(0x10, 0x20, 0x10, 0x20, 0, ctrl_resp(cmd, cc, g.rbytes(n), iid=r.randrange(32))), "resp-len")
+                emit(forge(0x10, 0x20, 0x10, 0x20, 0, ctrl_resp(cmd, cc, g.rbytes(n), iid=r.randrange(32)), flags=rflags(r)), "resp-len")
+    # fragments: a packet that opens a message (SOM, no EOM) followed on the same context by short
+    # packets without SOM, for every command with a fixed length
+    for cmd in (1, 4, 6, 7, 8, 2, 3):
+        for first in (0x88, 0x80, 0x98):
+            cid = r.choice(ctxs)
+            opener = forge(0x10, 0x20, 0x10, 0x20, 0, ctrl_req(r.choice([2, 3, 5]), []), flags=first)
+            for n in range(0, REQ_FIXED.get(cmd, 0) + 2):
+                for second in (0x08, 0x48, 0x00, 0x18):
+                    cont = forge(0x10, 0x20, 0x10, 0x20, 0, ctrl_req(cmd, g.rbytes(n)), flags=second)
+                    if verb == "dec":
+                        g.add("dec %s %s" % (cid, hx(opener)), "fragment:open")
+                        g.add("dec %s %s" % (cid, hx(cont)), "fragment:continue")
+                    else:
+                        g.add("proc %s %s %s" % (cid, hx(opener), hx(proc_buf() if proc_buf else g.buf(64))), "fragment:open")
+                        g.add("proc %s %s %s" % (cid, hx(cont), hx(proc_buf() if proc_buf else g.buf(64))), "fragment:continue")
     for cc in range(256):
         emit(forge(0x10, 0x20, 0x10, 0x20, 0, ctrl_resp(r.choice([1, 3, 4, 5, 6]), cc, g.rbytes(r.choice([0, 3, 16])))), "resp-cc")
     # all 255 wrong PECs on a few packets, single bit flips everywhere
@@ -492,12 +520,12 @@ def gen_history(g, nops, cid, cfg, fam, eid_pool=None):
             if recent and r.random() < 0.4:
                 e = r.choice(recent)      # the same value an accessor (or an earlier request) stored
             op = r.choice([0, 1, 0, 1, 3])
-            p = forge(addr & 0x7F, src7, r.randrange(256), src_eid, 0, ctrl_req(1, [op, e], iid=r.randrange(32)))
+            p = forge(addr & 0x7F, src7, r.randrange(256), src_eid, 0, ctrl_req(1, [op, e], iid=r.randrange(32)), flags=rflags(r))
             recent.append(e)
             kind = "hist:seteid"
         elif k < 0.40:
             body, lab = r.choice(answerable_requests(g, nv, [r.randrange(1, 255)]))
-            p = forge(addr & 0x7F, src7, r.randrange(256), src_eid, 0, body)
+            p = forge(addr & 0x7F, src7, r.randrange(256), src_eid, 0, body, flags=rflags(r))
             kind = "hist:request"
         elif k < 0.50:
             cmd = r.choice([1, 2, 3, 4, 5, 6])
